@@ -86,6 +86,12 @@ def search_subst():
                            TypedDictValue({"a": TypedDictEntry(TypedValue(int), required=False, readonly=True)}, extra_keys=TypedValue(str), extra_keys_readonly=True),
                            DictIncompleteValue(dict, [KVPair(KnownValue("k"), TypedValue(int), is_required=False)]),
                            SequenceValue(list, [(True, TypedValue(int))])]
+    # callables whose fallback type is not the default (nested defs are FunctionType-backed), bound-method shaped values
+    import types
+    from pyanalyze.signature import Signature, SigParameter, ParameterKind
+    from pyanalyze.value import CallableValue
+    sig0 = Signature.make([SigParameter("x", ParameterKind.POSITIONAL_OR_KEYWORD, annotation=TypedValue(int))], TypedValue(str))
+    closed += [CallableValue(sig0, types.FunctionType), CallableValue(sig0)]
     maps = [{}, {T: TypedValue(int)}, {T: TypedValue(str), U: KnownValue(1)}]
     for v in closed:
         for m in maps:
@@ -105,6 +111,19 @@ def search_subst():
         for attr in ("exactly", "extra_keys_readonly"):
             if hasattr(v, attr) and hasattr(r, attr) and getattr(v, attr) != getattr(r, attr):
                 return f"substitute_typevars changed .{attr} of {v!r}: {r!r}"
+    # substituting an (annotated) union for a type variable inside a union: the result is never nested and is the union of the
+    # substituted operands
+    from pyanalyze.value import CustomCheckExtension
+    from pyanalyze.extensions import CustomCheck
+    ann_union = AnnotatedValue(MultiValuedValue([TypedValue(int), TypedValue(str)]), [CustomCheckExtension(CustomCheck())])
+    for inner in (ann_union, MultiValuedValue([TypedValue(int), KnownValue(None)])):
+        for v in (MultiValuedValue([tv, KnownValue(None)]), MultiValuedValue([TypedValue(bytes), tv])):
+            r = v.substitute_typevars({T: inner})
+            if isinstance(r, MultiValuedValue) and any(isinstance(x, MultiValuedValue) or (isinstance(x, AnnotatedValue) and isinstance(x.value, MultiValuedValue)) for x in r.vals):
+                return f"({v}).substitute_typevars({{T: {inner}}}) = {r!r} has a nested union member"
+            want = unite_values(*[x.substitute_typevars({T: inner}) for x in v.vals])
+            if not same_set(leaves(r), leaves(want)):
+                return f"({v}).substitute_typevars({{T: {inner}}}) = {r}, the union of the substituted operands is {want}"
     for a, b in itertools.product(opened[:6], repeat=2):
         lhs = unite_values(a, b).substitute_typevars(m)
         rhs = unite_values(a.substitute_typevars(m), b.substitute_typevars(m))
